@@ -3,6 +3,7 @@ import Robust.Irc.Proofs.H3a
 Services-link handlers without loops: SVSHOLD, PRIVMSG/NOTICE, TOPIC, INVITE, KICK, SVSPART.
 -/
 namespace Robust.Irc
+open Srv
 open Robust AMap
 
 theorem PreservesSrv.of_mid {h : Ctx → Id → IrcMsg → Res Ctx}
@@ -13,7 +14,7 @@ theorem PreservesSrv.of_mid {h : Ctx → Id → IrcMsg → Res Ctx}
 theorem Mid.other_fields {c0 c c' : Ctx} {sid : Id} (h : Mid c0 c sid)
     (hs : c'.st.sessions = c.st.sessions) (hn : c'.st.nicks = c.st.nicks) (hc : c'.st.channels = c.st.channels)
     (og : OutGrows c c') : Mid c0 c' sid :=
-  ⟨h.hinv.congr hs hn hc, h.linv.congr hs, h.actor.congr hs, h.og.trans og⟩
+  ⟨h.hinv.congr hs hn hc, h.linv.congr hs, h.actor.congr hs, h.og.trans og, fun h0 => (h.ninv h0).congr hs hn hc⟩
 
 /-! ### SVSHOLD -/
 
